@@ -828,6 +828,10 @@ impl Range {
 
         let content_range_is_parsed = content_range.size.len() != 0;
         let content_type_is_parsed = content_range.content_type.len() != 0;
+        if content_type_is_parsed && !content_range_is_parsed {
+            return Err(Range::_ERROR_UNABLE_TO_PARSE_CONTENT_RANGE.to_string());
+        }
+
         if content_range_is_parsed && content_type_is_parsed {
             let mut body : Vec<u8> = vec![];
 
